@@ -239,17 +239,25 @@ def _is_fresh_container(v: ast.AST) -> bool:
     return isinstance(v, ast.Call) and isinstance(v.func, ast.Name) and v.func.id in ("dict", "list", "set", "OrderedDict", "defaultdict") and not v.args
 
 
-_DEFS_CACHE: Dict[int, Dict[str, ast.AST]] = {}
+def cached_defs(func: ast.AST) -> Dict[str, ast.AST]:
+    """single_defs(func), memoised *on the node object* (an id()-keyed table would hand stale entries to new nodes
+    that happen to reuse the address of a collected one)"""
+    d = getattr(func, "_mdsa_single_defs", None)
+    if d is None:
+        d = single_defs(func)
+        try:
+            func._mdsa_single_defs = d
+        except AttributeError:
+            pass
+    return d
+
 
 
 def expand(func: ast.AST, e: ast.AST, depth: int = 6) -> ast.AST:
     """e with every single-definition local replaced (recursively) by its defining expression."""
     import copy
 
-    k = id(func)
-    if k not in _DEFS_CACHE:
-        _DEFS_CACHE[k] = single_defs(func)
-    defs = _DEFS_CACHE[k]
+    defs = cached_defs(func)
     if not defs:
         return e
     r = _Subst(defs, depth).visit(copy.deepcopy(e))
